@@ -1602,7 +1602,18 @@ func c15BuilderCase(c *kit.Case) {
 		{Tag: "P", Properties: &property.ActualText{Text: "actual (text) \\", SingleUse: true}, Inline: true},
 		{Tag: "Q", Properties: &property.ActualText{Text: "shared"}, Inline: false},
 	}
-	newBuilder := func() *builder.Builder { return builder.New(ct, nil, version) }
+	// one walk in three uses a Builder for the second time (after Reset)
+	reused := r.Chance(1, 3)
+	newBuilder := func() *builder.Builder {
+		b := builder.New(ct, nil, version)
+		if reused {
+			b.Reset()
+		}
+		return b
+	}
+	if reused {
+		c.R.Count("builder_walks_on_a_reset_builder", 1)
+	}
 	newChecker := func() *c15Checker {
 		k := &c15Checker{qInText: version >= pdf.V2_0, tolerant: true}
 		if ct == content.Glyph {
